@@ -178,6 +178,9 @@ func (x Expr) GetNodes(n gen.Node) (results []gen.Node) {
 					}
 				}
 			} else {
+				// The expansion of prev is done. Clear the flag so a sibling of
+				// prev that shares this marker is expanded as well.
+				stack[len(stack)-1] = di &^ descentFlag
 				if fi == index(len(x))-1 { // last one
 					if top {
 						results = append(results, prev)
@@ -486,6 +489,9 @@ func (x Expr) FirstNode(n gen.Node) (result gen.Node) {
 					}
 				}
 			} else {
+				// The expansion of prev is done. Clear the flag so a sibling of
+				// prev that shares this marker is expanded as well.
+				stack[len(stack)-1] = di &^ descentFlag
 				stack = append(stack, prev)
 			}
 		case Root:
